@@ -17,7 +17,14 @@
 (***************************************************************************)
 EXTENDS Broker, Json, IOUtils
 
+CONSTANT Structural   \* FALSE: every clause, amounts exact to the mil (traces whose values are mil-precise).
+                      \* TRUE: executions with arbitrary float prices and 10^6 cash (the repository's own end-to-end
+                      \* tests): the clauses that compare AMOUNTS are switched off - which orders fill, when, in which
+                      \* order, at which side of the quote, what stays pending, what the holdings' quantities are, and
+                      \* the refusals remain exact
+
 Traces == JsonDeserialize(IOEnv.QSV_TRACE)
+Amt(b) == Structural \/ b        \* (\/ short-circuits: the amount arithmetic is not even evaluated)
 
 VARIABLES tid, l, bad, lhist, lhold,
           sync    \* FALSE once the execution has diverged from the specification: the unlogged variables (positions,
@@ -80,7 +87,7 @@ Clauses(e, n) ==
         << << "C01", "other-currency" >>, e.post.other = 0 >>,
         << << "C15", "getter-errtype" >>, e.post.unk = UnknownIdErr >>,
         \* equity = cash + market value; market value = sum over the holdings report
-        << << "C02", "equity" >>, \A p \in ps : Abs(e.post.teq[p] - (cash'[p] + e.post.tmv[p])) <= 1 >>,
+        << << "C02", "equity" >>, \A p \in ps : Abs(e.post.teq[p] - (cash'[p] + e.post.tmv[p])) <= (IF Structural THEN 2 ELSE 1) >>,
         << << "C02", "mv-total" >>, \A p \in ps :
              Abs(e.post.tmv[p] - SumOver(DOMAIN lhold'[p], [a \in DOMAIN lhold'[p] |-> lhold'[p][a].mv])) <= Cardinality(DOMAIN lhold'[p]) >>,
         << << "MODEL", "clocks" >>, now' = Pick(n, "now", now) /\ clk' = Pick(n, "clk", clk) >> }
@@ -99,7 +106,7 @@ Clauses(e, n) ==
       Accepted == {
         << << "C01", "master" >>,  master' = Pick(n, "master", master) >>,
         << << "C01", "portfolios" >>, created' = Pick(n, "created", created) >>,
-        << << "C01", "cash" >>, \A p \in ps : p \in DOMAIN expCash /\ cash'[p] = expCash[p] >>,
+        << << "C01", "cash" >>, Amt(\A p \in ps : p \in DOMAIN expCash /\ cash'[p] = expCash[p]) >>,
         << << "C01", "history" >>,
            \A p \in ps \cap DOMAIN expHist :
              LET new == Len(expHist[p]) - (IF p \in DOMAIN hist THEN Len(hist[p]) ELSE 0)
@@ -107,7 +114,9 @@ Clauses(e, n) ==
              IN  /\ Len(lhist'[p]) = Len(old) + new
                  /\ SubSeq(lhist'[p], 1, Len(old)) = old
                  /\ \A i \in 1..new :
-                      HistEvMatches(lhist'[p][Len(old) + i], expHist[p][Len(expHist[p]) - new + i]) >>,
+                      LET x == lhist'[p][Len(old) + i]
+                          y == expHist[p][Len(expHist[p]) - new + i]
+                      IN  x.kind = y.kind /\ x.t = y.t /\ Amt(HistEvMatches(x, y)) >>,
         << << "C04", "queue" >>, \A p \in ps : p \in DOMAIN expQueue /\ queue'[p] = expQueue[p] >>,
         << << "C04", "batch" >>, Ident(e.fills) = Ident(expFills) >>,
         \* a fill lands in the portfolio the order was submitted to: otherwise the submitting portfolio's cash and
@@ -120,28 +129,29 @@ Clauses(e, n) ==
              LET f == e.fills[k] IN c.op = "update" =>
                /\ (f.qty > 0 => f.px = quote[f.asset].ask) /\ (f.qty < 0 => f.px = quote[f.asset].bid) >>,
         << << "C05", "commission" >>, \A k \in 1..Len(e.fills) :
-             LET f == e.fills[k] IN c.op = "update" => f.comm \in CommissionSet(f.px, f.qty) /\ f.comm >= 0 >>,
+             LET f == e.fills[k] IN c.op = "update" => f.comm >= 0 /\ Amt(f.comm \in CommissionSet(f.px, f.qty))
+                                                     /\ (fee.kind = "zero" => f.comm = 0) >>,
         << << "C05", "stamp" >>, \A k \in 1..Len(e.fills) : e.fills[k].t = c.t >>,
         << << "C02", "marks" >>, { << e.marks[k].pid, e.marks[k].asset, e.marks[k].px >> : k \in 1..Len(e.marks) } = expMarks >>,
         \* holdings = net of the OBSERVED fills, valued at the latest price seen (ghosts follow the observed sub-events)
         << << "C02", "domain" >>, \A p \in ps \cap DOMAIN net' : DOMAIN lhold'[p] = { a \in Assets : net'[p][a] # 0 } >>,
         << << "C02", "qty" >>, \A p \in ps \cap DOMAIN net' : \A a \in DOMAIN lhold'[p] : lhold'[p][a].qty = net'[p][a] >>,
-        << << "C02", "mv" >>, \A p \in ps \cap DOMAIN seen' : \A a \in DOMAIN lhold'[p] :
-             lhold'[p][a].mv = lhold'[p][a].qty * seen'[p][a] >>,
+        << << "C02", "mv" >>, Amt(\A p \in ps \cap DOMAIN seen' : \A a \in DOMAIN lhold'[p] :
+             lhold'[p][a].mv = lhold'[p][a].qty * seen'[p][a]) >>,
         \* P&L: realised as the accounting says; the three identities of C03 relative to the price the
         \* implementation currently values the holding at
-        << << "C03", "pnl" >>, \A p \in ps \cap DOMAIN pos' : \A a \in DOMAIN lhold'[p] \cap DOMAIN pos'[p] :
+        << << "C03", "pnl" >>, Amt(\A p \in ps \cap DOMAIN pos' : \A a \in DOMAIN lhold'[p] \cap DOMAIN pos'[p] :
              lhold'[p][a].qty = Net(pos'[p][a]) /\ lhold'[p][a].qty # 0 =>
                LET P == Mark(pos'[p][a], PxObs(p, a), pos'[p][a].pclk) IN
                /\ RWithin1(lhold'[p][a].rpnl, Realised(P))
                /\ RWithin1(lhold'[p][a].upnl, Unrealised(P))                                  \* (price - avg cost) * net
                /\ Abs(lhold'[p][a].tpnl - lhold'[p][a].rpnl - lhold'[p][a].upnl) <= 2         \* total = realised + unrealised
-               /\ Abs(lhold'[p][a].tpnl - (lhold'[p][a].mv - P.paid - P.fees)) <= 1 >>,        \* = market value - paid - fees
+               /\ Abs(lhold'[p][a].tpnl - (lhold'[p][a].mv - P.paid - P.fees)) <= 1) >>,       \* = market value - paid - fees
         \* ghost-ledger invariants on the LOGGED balances: catches cumulative drift
-        << << "C01", "ledger" >>, \A p \in ps : p \in DOMAIN ledger' /\
-             cash'[p] = ledger'[p].in - ledger'[p].out - ledger'[p].cost >>,
-        << << "C01", "zero-sum" >>, master' + SumOver(ps, cash') +
-             SumOver(ps \cap DOMAIN ledger', [p \in ps \cap DOMAIN ledger' |-> ledger'[p].cost]) = ext'.in - ext'.out >> }
+        << << "C01", "ledger" >>, Amt(\A p \in ps : p \in DOMAIN ledger' /\
+             cash'[p] = ledger'[p].in - ledger'[p].out - ledger'[p].cost) >>,
+        << << "C01", "zero-sum" >>, Amt(master' + SumOver(ps, cash') +
+             SumOver(ps \cap DOMAIN ledger', [p \in ps \cap DOMAIN ledger' |-> ledger'[p].cost]) = ext'.in - ext'.out) >> }
   IN  [common |-> Common, specific |-> IF rej THEN Refused ELSE Accepted]
 
 Step ==
